@@ -324,9 +324,10 @@ def search(pid, tier, seed, escalate, hints):
     out = []
     n_checked = 0
     runs = None
-    for h in hints if isinstance(hints, list) else []:
-        pass
     scs = generate(pid, tier, seed + 17, (150 if tier == 'quick' else 1500) * (4 if escalate else 1))
+    # the scenarios on which the model and the code disagree come first: does the property itself fail on them?
+    hinted = [h['scenario'] for h in (hints if isinstance(hints, list) else []) if isinstance(h, dict) and 'scenario' in h]
+    scs = hinted + scs
     if pid == 'C11':
         scs += long_grid_scenarios(random.Random(seed + 9), (3 if tier == 'quick' else 20) * (3 if escalate else 1))
     for sc in scs:
@@ -349,7 +350,7 @@ def search(pid, tier, seed, escalate, hints):
                     out += O.c15_check(sc, r)
             except Exception:  # noqa
                 out.append(O.W('oracle-crash', 'the oracle could not read the recorded history: ' + traceback.format_exc()[-600:], sc))
-        if pid == 'C12' and n_checked <= (40 if tier == 'quick' else 500) * (3 if escalate else 1):
+        if pid == 'C12' and n_checked <= len(hinted) + (40 if tier == 'quick' else 500) * (3 if escalate else 1):
             out += O.c12_check(sc, rng)
         if len([w for w in out if w['cls'] not in ('D4',)]) >= 5:
             break
